@@ -315,6 +315,7 @@ def parseEnvOps (s : String) : List EnvCd.Op :=
   (s.splitOn ";").filterMap (fun o => match o.splitOn ":" with
     | ["a", n, v] => some (.assign (unhex n) (unhex v))
     | ["p", n, v] => some (.prefixed (unhex n) (unhex v))
+    | ["f", n, v] => some (.prefixedFn (unhex n) (unhex v))
     | ["x", n, v] => some (.export (unhex n) (unhex v))
     | ["u", n] => some (.unset (unhex n))
     | ["r", pre, names, line] =>
@@ -1023,12 +1024,13 @@ def answer (stream : String) (f : Array String) : Ans :=
   | "term" =>
     -- C07: a session through the small-step model (all delivery orders of terminal signals) and the reference world
     let acts := DriveC07.parseActs (g 0)
-    let r := DriveC07.replayModel {} acts
+    let probes := DriveC07.probeFlags (g 0)
+    let r := DriveC07.replayModel {} acts probes
     (match r.bad with
      | some why => { m := "UNMODELLED " ++ why }
      | none =>
        let cls := C07.classOf (C07.flagsOf acts)
-       { m := "|".intercalate r.obs, s := "|".intercalate (DriveC07.replaySpec acts), guard := if cls = "-" then "1" else "0", cls := cls })
+       { m := "|".intercalate r.obs, s := "|".intercalate (DriveC07.replaySpec acts probes), guard := if cls = "-" then "1" else "0", cls := cls })
   | "termgen" =>
     let seed := (g 0).toNat?.getD 1
     let n := (g 1).toNat?.getD 10
